@@ -47,7 +47,11 @@ CLASSES = ["boundary_hist/restore/copy", "boundary_hist/restore/pickle", "bounda
            "border_hist/midstep_walks", "border_hist/force_check"]
 
 BOXES = [1.0, 10.0, 3.7, 12.539722611734991]
-LAYOUTS = [(1, 1, 1), (2, 1, 1), (2, 2, 1), (1, 2, 2), (2, 2, 2), (3, 1, 1), (1, 3, 2), (3, 2, 1)]
+# every ordering of the three box lengths occurs (all equal; one longer / one shorter in each axis; all six strict orders)
+LAYOUTS = [(1, 1, 1), (2, 2, 2),
+           (2, 1, 1), (1, 2, 1), (1, 1, 2), (3, 1, 1), (1, 1, 3),
+           (1, 2, 2), (2, 1, 2), (2, 2, 1),
+           (1, 2, 3), (1, 3, 2), (2, 1, 3), (2, 3, 1), (3, 1, 2), (3, 2, 1)]
 RESTORES = ["copy", "pickle", "file"]
 KEY_ADD_FLAGGED = "add-onto-flagged-particle"   # leaf split with a flagged (y = NaN) resident never terminates
 KEY_RESTORE = "restore-flagged-particle"     # loading a tree simulation that holds a particle flagged for removal
@@ -63,12 +67,16 @@ def particle(draw, L, L0, dt, hashv, border, radius):
     x = []
     for k in range(3):
         if border and draw(st.integers(0, 2)) > 0:
-            # exactly on a face of a cell of some level: -L/2 + L0 * j / 2**lev
-            lev = draw(st.sampled_from([0, 0, 1, 1, 2, 3, 6]))
-            nmax = int(round(L[k] / L0)) * 2 ** lev
-            j = draw(st.integers(0, nmax))
-            c = -L[k] / 2 + L0 * (j / float(2 ** lev))
-            c = min(max(c, -L[k] / 2), L[k] / 2)
+            if draw(st.integers(0, 2)) == 0:
+                # exactly on one of the two OUTER faces of this axis (each of the six faces with equal weight)
+                c = draw(st.sampled_from([-0.5, 0.5])) * L[k]
+            else:
+                # exactly on a face of a cell of some level: -L/2 + L0 * j / 2**lev
+                lev = draw(st.sampled_from([0, 0, 1, 1, 2, 3, 6]))
+                nmax = int(round(L[k] / L0)) * 2 ** lev
+                j = draw(st.integers(0, nmax))
+                c = -L[k] / 2 + L0 * (j / float(2 ** lev))
+                c = min(max(c, -L[k] / 2), L[k] / 2)
             # (not around 0.0: its neighbours are denormals, closer together than any cell can resolve)
             nudge_ulps = draw(st.sampled_from([0, 0, 0, 1, -1, 2])) if c != 0.0 else 0
             for _ in range(abs(nudge_ulps)):       # a few ulps next to the face (towards the inside at the outer faces)
@@ -83,6 +91,17 @@ def particle(draw, L, L0, dt, hashv, border, radius):
         v[ax] = vs * draw(S.floats(-1.0, 1.0))      # moving inside a face
     else:
         v = [vs * draw(S.floats(-1.0, 1.0)) for _ in range(3)]
+    if border and draw(st.integers(0, 3)) == 0:
+        # ARRIVE on an outer face by drifting: after a whole step (end of step: collision search / explicit update) or
+        # after the first half step (mid-step tree update), e.g. z = 7, vz = 3, dt = 1, Lz = 20
+        ax = draw(st.integers(0, 2))
+        face = draw(st.sampled_from([-0.5, 0.5])) * L[ax]
+        frac = draw(st.sampled_from([1.0, 0.5]))
+        v[ax] = draw(st.sampled_from([-1.0, 1.0])) * draw(st.sampled_from([0.125, 0.25, 0.5, 1.0, 1.5])) * L0 / abs(dt)
+        x0 = face - frac * dt * v[ax]
+        x0 -= L[ax] * round(x0 / L[ax])
+        if abs(x0) < L[ax] / 2:
+            x[ax] = x0
     return {"x": x[0], "y": x[1], "z": x[2], "vx": v[0], "vy": v[1], "vz": v[2],
             # (two massless bodies make the merge formulas 0/0: masses > 0 whenever collisions are on)
             "m": draw(st.sampled_from([0.0, 1e-3, 1.0])) if (not radius and draw(st.integers(0, 3)) == 0)
@@ -170,7 +189,9 @@ def nudge(q, cfg):
     d = cfg["L0"] * 1.2345e-7
     out = dict(q)
     for k, ax in enumerate("xyz"):
-        out[ax] = q[ax] + d * (1 + (q["hash"] + k) % 7)
+        # (irregular in the hash: identical generated particles must not end up equally spaced on a line, where the
+        # merger of the outer two lands exactly on the middle one)
+        out[ax] = q[ax] + d * (1 + ((q["hash"] * 7919 + k * 104729) % 1009) / 100.0)
     return out
 
 
@@ -687,6 +708,12 @@ def run_history(case, ctx):
             import pickle
             import rebound
             before = R.snapshot(sim)
+            fl = np.isnan(before["y"])
+            if tree_cfg and fl.any() and ctx.finding_open(KEY_ADD_FLAGGED) and any(
+                    abs(before["x"][i] - before["x"][j]) < 1e-10 * cfg["L0"] and abs(before["z"][i] - before["z"][j]) < 1e-10 * cfg["L0"]
+                    for i in np.nonzero(fl)[0] for j in np.nonzero(~fl)[0]):
+                ctx.excluded(KEY_ADD_FLAGGED)   # the rebuild inserts a live particle into the leaf of a flagged one
+                continue
             if np.isnan(before["y"]).any() and tree_cfg and ctx.finding_open(KEY_RESTORE):
                 ctx.excluded(KEY_RESTORE)       # restoring with a flag-only removal pending: known finding, see report
                 continue
@@ -702,7 +729,13 @@ def run_history(case, ctx):
                     sim.save_to_file(path)
                     new = rebound.Simulation(path)
                     os.unlink(path)
+                new.process_messages()
             except RuntimeError as e:
+                if "same coordinates" in str(e):
+                    # two particles at exactly the same point (a merger can land on another particle): the tree's
+                    # documented error; the restored object is then not usable - not an input this property speaks about
+                    ctx.skip("two particles at exactly the same point")
+                    return
                 raise Violation("restoring the simulation (%s) failed: %s" % (op[1], e))
             sim = new
             attach()
